@@ -7,6 +7,9 @@ package g_reads
 // SeriesCursor whose cursors hand out the same points under many chunkings (and shard splits);
 // plus a slice of requests through the real v1/services/storage.Store over real shards.
 // Oracle: own window arithmetic (ns every/offset, period = every) + fold over the raw points.
+// Streams 4–6 repeat the three streams with calendar-month windows (req.Window.Every.Months):
+// the month bounds come from own calendar arithmetic (c20W), never from flux/interval; the mock
+// cursors and the mock store honour the read direction NewWindowAggregateResultSet asks for.
 
 import (
 	"context"
@@ -39,6 +42,154 @@ func c20Win(t, every, offset int64) (start, stop int64) {
 	}
 	start = t - m
 	return start, start + every
+}
+
+// ---- calendar windows (own proleptic-Gregorian arithmetic in UTC; independent of flux/interval
+// and of package time, which is only used to cross-check these functions in c20CalendarSelfTest)
+
+const c20Day = int64(24 * time.Hour)
+
+func c20FloorDiv(a, b int64) int64 {
+	q := a / b
+	if a%b != 0 && (a < 0) != (b < 0) {
+		q--
+	}
+	return q
+}
+
+// c20DaysFromCivil: days since 1970-01-01 of the date y-m-d.
+func c20DaysFromCivil(y, m, d int64) int64 {
+	if m <= 2 {
+		y--
+	}
+	era := c20FloorDiv(y, 400)
+	yoe := y - era*400
+	mp := (m + 9) % 12 // March = 0
+	doy := (153*mp+2)/5 + d - 1
+	doe := yoe*365 + yoe/4 - yoe/100 + doy
+	return era*146097 + doe - 719468
+}
+
+// c20CivilFromDays: the date of the z-th day since 1970-01-01.
+func c20CivilFromDays(z int64) (y, m, d int64) {
+	z += 719468
+	era := c20FloorDiv(z, 146097)
+	doe := z - era*146097
+	yoe := (doe - doe/1460 + doe/36524 - doe/146096) / 365
+	y = yoe + era*400
+	doy := doe - (365*yoe + yoe/4 - yoe/100)
+	mp := (5*doy + 2) / 153
+	d = doy - (153*mp+2)/5 + 1
+	if mp < 10 {
+		m = mp + 3
+	} else {
+		m = mp - 9
+	}
+	if m <= 2 {
+		y++
+	}
+	return
+}
+
+// c20MonthIdx: months since January 1970 of the UTC month containing t (negative before 1970).
+func c20MonthIdx(t int64) int64 {
+	y, m, _ := c20CivilFromDays(c20FloorDiv(t, c20Day))
+	return (y-1970)*12 + m - 1
+}
+
+// c20MonthStart: 00:00:00 UTC on the first day of month idx (months since January 1970).
+func c20MonthStart(idx int64) int64 {
+	yq := c20FloorDiv(idx, 12)
+	return c20DaysFromCivil(1970+yq, idx-yq*12+1, 1) * c20Day
+}
+
+// Month indexes the checks stay inside: 1700-01 … 2250-01 (int64 nanoseconds reach 1677-09 … 2262-04).
+const (
+	c20MinMonth = (1700 - 1970) * 12
+	c20MaxMonth = (2250 - 1970) * 12
+)
+
+// c20CalendarSelfTest cross-checks the calendar arithmetic against package time on month
+// boundaries, the nanosecond before them and pseudo-random instants of 1700–2250. "" = agree.
+func c20CalendarSelfTest(rg *vkit.Rand) string {
+	check := func(t int64) string {
+		tt := time.Unix(0, t).UTC()
+		want := int64(tt.Year()-1970)*12 + int64(tt.Month()) - 1
+		if got := c20MonthIdx(t); got != want {
+			return fmt.Sprintf("c20MonthIdx(%d)=%d, time says %d", t, got, want)
+		}
+		if got, w := c20MonthStart(want), time.Date(tt.Year(), tt.Month(), 1, 0, 0, 0, 0, time.UTC).UnixNano(); got != w {
+			return fmt.Sprintf("c20MonthStart(%d)=%d, time says %d", want, got, w)
+		}
+		return ""
+	}
+	for idx := int64(c20MinMonth); idx <= c20MaxMonth; idx++ {
+		s := c20MonthStart(idx)
+		for _, t := range []int64{s, s - 1, s + 1, s + 28*c20Day, s + 29*c20Day - 1} {
+			if msg := check(t); msg != "" {
+				return msg
+			}
+		}
+	}
+	lo, hi := c20MonthStart(c20MinMonth), c20MonthStart(c20MaxMonth)
+	for i := 0; i < 20000; i++ {
+		if msg := check(lo + int64(rg.Uint64()%uint64(hi-lo))); msg != "" {
+			return msg
+		}
+	}
+	return ""
+}
+
+// c20W is a window specification, period = every. Months > 0: calendar windows of Months months
+// (UTC) — the i-th window starts at 00:00:00 of the first day of month OffMonths + i*Months
+// (months since January 1970), shifted by Offset nanoseconds (0 ≤ Offset < 28 days, so the
+// shifted start exists in every month), and ends where window i+1 starts. Months == 0: windows
+// of Every nanoseconds aligned at Offset.
+type c20W struct {
+	Months    int64
+	Every     int64
+	OffMonths int64
+	Offset    int64
+}
+
+func (w c20W) isMonths() bool { return w.Months > 0 }
+
+func (w c20W) unit() string {
+	if w.isMonths() {
+		return "months"
+	}
+	return "nsecs"
+}
+
+func (w c20W) monthWinStart(i int64) int64 {
+	return c20MonthStart(w.OffMonths+i*w.Months) + w.Offset
+}
+
+// win returns the bounds [start, stop) of the unique window containing t.
+func (w c20W) win(t int64) (start, stop int64) {
+	if !w.isMonths() {
+		return c20Win(t, w.Every, w.Offset)
+	}
+	i := c20FloorDiv(c20MonthIdx(t)-w.OffMonths, w.Months)
+	if w.monthWinStart(i) > t { // t lies in the starting month of window i but before the shifted start
+		i--
+	}
+	return w.monthWinStart(i), w.monthWinStart(i + 1)
+}
+
+// approxEvery: a lower bound of the window length in nanoseconds (for budgets and range padding).
+func (w c20W) approxEvery() int64 {
+	if w.isMonths() {
+		return w.Months * 28 * c20Day
+	}
+	return w.Every
+}
+
+func (w c20W) String() string {
+	if w.isMonths() {
+		return fmt.Sprintf("every=%dmo offset=%dmo+%dns", w.Months, w.OffMonths, w.Offset)
+	}
+	return fmt.Sprintf("every=%dns offset=%dns", w.Every, w.Offset)
 }
 
 // ---- aggregates --------------------------------------------------------------------------------
@@ -160,9 +311,14 @@ func c20Fold(pts []sk.Pt, agg int, start, stop int64) c20Row {
 
 // c20Expect groups ascending raw points into windows and folds each non-empty window.
 func c20Expect(pts []sk.Pt, agg int, every, offset int64) []c20Row {
+	return c20ExpectW(pts, agg, c20W{Every: every, Offset: offset})
+}
+
+// c20ExpectW: the same for nanosecond and calendar-month windows.
+func c20ExpectW(pts []sk.Pt, agg int, w c20W) []c20Row {
 	var out []c20Row
 	for i := 0; i < len(pts); {
-		s, e := c20Win(pts[i].T, every, offset)
+		s, e := w.win(pts[i].T)
 		j := i
 		for j < len(pts) && pts[j].T < e {
 			j++
@@ -333,7 +489,20 @@ func (s *c20Shard) Next(ctx context.Context, req *cursors.CursorRequest) (cursor
 			in = append(in, p)
 		}
 	}
-	base := c20CurBase{c20Feed: c20Feed{pts: in, sizes: s.sizes}}
+	sizes := s.sizes
+	if !req.Ascending {
+		// a descending cursor yields the same points from the newest to the oldest
+		rev := make([]sk.Pt, len(in))
+		for i, p := range in {
+			rev[len(in)-1-i] = p
+		}
+		in = rev
+		sizes = make([]int, len(s.sizes))
+		for i, z := range s.sizes {
+			sizes[len(s.sizes)-1-i] = z
+		}
+	}
+	base := c20CurBase{c20Feed: c20Feed{pts: in, sizes: sizes}}
 	switch s.typ {
 	case 'f':
 		return &c20FloatCur{c20CurBase: base}, nil
@@ -687,6 +856,8 @@ type c20Case struct {
 	Agg       string   `json:"agg"`
 	Every     int64    `json:"every"`
 	Offset    int64    `json:"offset"`
+	EveryMo   int64    `json:"every_months,omitempty"`
+	OffsetMo  int64    `json:"offset_months,omitempty"`
 	RangeLo   int64    `json:"range_start"`
 	RangeHi   int64    `json:"range_end_excl"`
 	WindowMsg bool     `json:"request_uses_window_message"`
@@ -740,6 +911,23 @@ func c20TypeName(t byte) string {
 	return map[byte]string{'f': "float", 'i': "integer", 'u': "unsigned", 's': "string", 'b': "boolean"}[t]
 }
 
+// c20RequestW builds the request for a window specification; calendar-month windows only exist
+// in the Window message form.
+func c20RequestW(agg int, w c20W, lo, hi int64, windowMsg bool) *datatypes.ReadWindowAggregateRequest {
+	if !w.isMonths() {
+		return c20Request(agg, w.Every, w.Offset, lo, hi, windowMsg)
+	}
+	req := &datatypes.ReadWindowAggregateRequest{
+		Range:     &datatypes.TimestampRange{Start: lo, End: hi},
+		Aggregate: []*datatypes.Aggregate{{Type: c20AggProto[agg]}},
+		Window:    &datatypes.Window{Every: &datatypes.Duration{Months: w.Months}},
+	}
+	if w.OffMonths != 0 || w.Offset != 0 {
+		req.Window.Offset = &datatypes.Duration{Months: w.OffMonths, Nsecs: w.Offset}
+	}
+	return req
+}
+
 func c20Request(agg int, every, offset, lo, hi int64, windowMsg bool) *datatypes.ReadWindowAggregateRequest {
 	req := &datatypes.ReadWindowAggregateRequest{
 		Range:     &datatypes.TimestampRange{Start: lo, End: hi},
@@ -764,6 +952,15 @@ func c20Request(agg int, every, offset, lo, hi int64, windowMsg bool) *datatypes
 // c20RunOne drives NewWindowAggregateResultSet over one series under one chunking and returns
 // the drained rows.
 func c20RunOne(req *datatypes.ReadWindowAggregateRequest, typ byte, its cursors.CursorIterators, limit int) ([]sk.Pt, []int, error) {
+	if reads.IsLastDescendingAggregateOptimization(req) {
+		// the store layer (v1/services/storage Store.WindowAggregate → findShardIDs) hands the shards
+		// over newest first when this function asks for a descending read; the mock store does the same
+		rev := make(cursors.CursorIterators, len(its))
+		for i, it := range its {
+			rev[len(its)-1-i] = it
+		}
+		its = rev
+	}
 	row := reads.SeriesRow{
 		Name:       []byte("m"),
 		SeriesTags: models.NewTags(map[string]string{"t": "a"}),
@@ -808,15 +1005,20 @@ func c20ShardDesc(its cursors.CursorIterators) []string {
 func TestC20(t *testing.T) {
 	r := vkit.Start(t, "C20", "exploration")
 	defer r.Finish()
-	r.Rule("case = (field type, aggregate, every, offset, request range, generated points); small cases (≤12 in-range points) run under EVERY composition of the points into arrays, large cases (900–2100 points, 1000/2000-row output boundaries targeted) under 7 chunking styles, each chunking spread over 1–n mock shards incl. shards without the series; a third stream sends WindowAggregate requests to a real v1 storage.Store over real shards. non-trivial = ≥2 in-range points forming ≥2 windows or a window with ≥2 points; distinct = hash of (type, agg, window, range, points)")
+	r.Rule("case = (field type, aggregate, every, offset, request range, generated points); small cases (≤12 in-range points) run under EVERY composition of the points into arrays, large cases (900–2100 points, 1000/2000-row output boundaries targeted) under 7 chunking styles, each chunking spread over 1–n mock shards incl. shards without the series; a third stream sends WindowAggregate requests to a real v1 storage.Store over real shards; streams 4–6 are the same three with windows of 1, 2, 3, 6 or 12 calendar months (offsets of whole months and/or < 28 days of nanoseconds; points on month boundaries and 1 ns around them, leap / non-leap Februaries, 1700–2250; real-store datasets of 5–30 months in shard groups of 7–90 days). non-trivial = ≥2 in-range points forming ≥2 windows or a window with ≥2 points; distinct = hash of (type, agg, window, range, points)")
 	r.Assume("window = (every ns, period = every, offset ns); timestamps and offsets keep |t| < 2^62 (no int64 overflow in window arithmetic)",
+		"calendar windows (doc comments of interval.NewWindow / interval.Window in the vendored flux v0.200.0 source: \"Window boundaries start at the epoch plus the offset. Each subsequent window starts at a multiple of the every duration\", window_start_i = zero + every*i; values.Time.Add adds months on the UTC calendar keeping day and clock): window i of every=M months, offset=K months + d ns (K ≥ 0, 0 ≤ d < 28 days) starts at 00:00:00 UTC of the first day of month K+i*M counted from January 1970, plus d, and ends where window i+1 starts; data within 1700–2250",
 		"timestamps of count/sum/mean rows are the window stop, of min/max/first/last rows the selected point's own time (array_cursor.gen.go AccEmit); for tied min/max any tied point's time is accepted",
 		"values are exactly representable (multiples of 1/8, small integers) so float sums/means are order-independent; extreme values only for count and selectors")
-	r.Trust("mock SeriesCursor/CursorIterator/array cursors in c20_test.go (reused backing buffer, closed time range) stand in for tsm1 cursors in streams 1–2")
+	r.Trust("mock SeriesCursor/CursorIterator/array cursors in c20_test.go (reused backing buffer, closed time range, descending on request; the mock store hands the shards over newest first when reads.IsLastDescendingAggregateOptimization says so, as v1 Store.WindowAggregate does) stand in for tsm1 cursors in streams 1–2 and 4–5",
+		"the oracle's calendar arithmetic is cross-checked against package time on every month boundary of 1700–2250 before the month streams start")
 
 	nSmall := r.N(2600, 80000)
 	nLarge := r.N(400, 12000)
 	nStore := r.N(1500, 30000)
+	nMonthSmall := r.N(1400, 14000)
+	nMonthLarge := r.N(70, 1400)
+	nMonthStore := r.N(360, 3600)
 
 	types := []byte{'f', 'i', 'u', 's', 'b'}
 	caseNo := 0
@@ -825,7 +1027,8 @@ func TestC20(t *testing.T) {
 	// collector would dominate the budget
 	defer debug.SetGCPercent(debug.SetGCPercent(400))
 
-	runCase := func(path string, rg *vkit.Rand, typ byte, agg int, every, offset int64, all []sk.Pt, lo, hi int64, chunkings func(n int, f func(sizes []int, h *vkit.Rand))) {
+	runCase := func(path string, rg *vkit.Rand, typ byte, agg int, w c20W, all []sk.Pt, lo, hi int64, chunkings func(n int, f func(sizes []int, h *vkit.Rand))) {
+		every, offset := w.Every, w.Offset
 		var before, in, after []sk.Pt
 		for _, p := range all {
 			switch {
@@ -837,9 +1040,9 @@ func TestC20(t *testing.T) {
 				in = append(in, p)
 			}
 		}
-		want := c20Expect(in, agg, every, offset)
-		windowMsg := rg.Bool()
-		cs := c20Case{No: caseNo, Type: c20TypeName(typ), Agg: c20AggNames[agg], Every: every, Offset: offset, RangeLo: lo, RangeHi: hi,
+		want := c20ExpectW(in, agg, w)
+		windowMsg := rg.Bool() || w.isMonths()
+		cs := c20Case{No: caseNo, Type: c20TypeName(typ), Agg: c20AggNames[agg], Every: every, Offset: offset, EveryMo: w.Months, OffsetMo: w.OffMonths, RangeLo: lo, RangeHi: hi,
 			WindowMsg: windowMsg, Points: c20FmtPts(all, 40), NPoints: len(all), NInRange: len(in), NWindows: len(want)}
 		multi := false
 		for _, w := range want {
@@ -847,7 +1050,11 @@ func TestC20(t *testing.T) {
 				multi = true
 			}
 		}
-		r.Case(fmt.Sprint(path, typ, agg, every, offset, lo, hi, c20FmtPts(all, 1<<30)), len(in) >= 2 && (len(want) >= 2 || multi))
+		r.Case(fmt.Sprint(path, typ, agg, w, lo, hi, c20FmtPts(all, 1<<30)), len(in) >= 2 && (len(want) >= 2 || multi))
+		if w.isMonths() {
+			r.Event("month_window_cases", 1)
+			r.Event(fmt.Sprintf("month_window_cases_every_%dmo", w.Months), 1)
+		}
 		if len(want) > reads.MaxPointsPerBlock {
 			r.Event("cases_output_over_1000_rows", 1)
 		}
@@ -874,7 +1081,7 @@ func TestC20(t *testing.T) {
 				return
 			}
 			its := c20Shards(h, typ, in, sizes, before, after, &desc)
-			req := c20Request(agg, every, offset, lo, hi, windowMsg)
+			req := c20RequestW(agg, w, lo, hi, windowMsg)
 			got, blocks, err := c20RunOne(req, typ, its, 2*len(in)+10)
 			r.Event("chunkings_run", 1)
 			r.Event("rows_compared", int64(len(want)))
@@ -898,13 +1105,15 @@ func TestC20(t *testing.T) {
 			if len(want) > reads.MaxPointsPerBlock {
 				ob = "crosses_1000_rows"
 			}
-			r.Violation("window_aggregate_mismatch", map[string]string{"agg": c20AggNames[agg], "type": c20TypeName(typ), "diff": kind, "output": ob, "path": path},
+			r.Event("violations_path_"+path, 1)
+			r.Violation("window_aggregate_mismatch", map[string]string{"agg": c20AggNames[agg], "type": c20TypeName(typ), "diff": kind, "output": ob, "path": path, "window_unit": w.unit()},
 				c20Wit{Case: cs, Path: path, Chunks: sizes, Shards: c20ShardDesc(its), Blocks: blocks, DiffKind: kind, Row: idx, Detail: detail,
 					Want: c20Near(want, idx, func(w c20Row) string { return fmt.Sprintf("[%d,%d) %d:%s n=%d", w.Start, w.Stop, w.T, w.V, w.N) }),
 					Got:  c20Near(got, idx, func(p sk.Pt) string { return fmt.Sprintf("%d:%s", p.T, p.V) })})
 		})
 		if desc {
-			r.Inconclusive("subject asked for a descending cursor in windowed mode")
+			// the mock cursors and the mock store honour the direction, so the row comparison decides
+			r.Event("cases_read_with_descending_cursors", 1)
 		}
 	}
 
@@ -929,6 +1138,50 @@ func TestC20(t *testing.T) {
 			}
 		}
 		return minT - 1 - int64(rg.Intn(3))*every, maxT + 1 + int64(rg.Intn(3))*every
+	}
+
+	// every composition of the in-range points into arrays (each with its own shard split)
+	allChunkings := func(shardSeed uint64) func(n int, f func([]int, *vkit.Rand)) {
+		return func(n int, f func([]int, *vkit.Rand)) {
+			if n == 0 {
+				f(nil, vkit.NewRand(shardSeed))
+				return
+			}
+			for mask := uint64(0); mask < 1<<uint(n-1); mask++ {
+				f(c20SizesFromMask(n, mask), vkit.NewRand(shardSeed^(mask*0x9E3779B97F4A7C15)))
+			}
+		}
+	}
+	// 7 chunking styles for large inputs
+	largeChunkings := func(rg *vkit.Rand) func(n int, f func([]int, *vkit.Rand)) {
+		return func(n int, f func([]int, *vkit.Rand)) {
+			if n == 0 {
+				f(nil, rg)
+				return
+			}
+			mk := func(next func() int) []int {
+				var s []int
+				for left := n; left > 0; {
+					k := next()
+					if k < 1 {
+						k = 1
+					}
+					if k > left {
+						k = left
+					}
+					s = append(s, k)
+					left -= k
+				}
+				return s
+			}
+			f([]int{n}, rg)                                                                                 // one array
+			f(mk(func() int { return 1000 }), rg)                                                           // TSM block sized
+			f(mk(func() int { return rg.Range(1, 50) }), rg)                                                // small arrays
+			f(mk(func() int { return 1 }), rg)                                                              // one point per array
+			f(mk(func() int { return rg.Range(1, n) }), rg)                                                 // anything
+			f(mk(func() int { return vkit.Pick(rg, []int{1, 2, 500, 998, 999, 1000, 1001, 1002}) }), rg) // around the block size
+			f(mk(func() int { return rg.Range(900, 1100) }), rg)
+		}
 	}
 
 	// ---- stream 1: every chunking of ≤ 12 points ------------------------------------------------
@@ -968,15 +1221,7 @@ func TestC20(t *testing.T) {
 			all = all[:len(all)-1]
 		}
 		shardSeed := rg.Uint64()
-		runCase("all_chunkings", rg, typ, agg, every, offset, all, lo, hi, func(n int, f func([]int, *vkit.Rand)) {
-			if n == 0 {
-				f(nil, vkit.NewRand(shardSeed))
-				return
-			}
-			for mask := uint64(0); mask < 1<<uint(n-1); mask++ {
-				f(c20SizesFromMask(n, mask), vkit.NewRand(shardSeed^(mask*0x9E3779B97F4A7C15)))
-			}
-		})
+		runCase("all_chunkings", rg, typ, agg, c20W{Every: every, Offset: offset}, all, lo, hi, allChunkings(shardSeed))
 		caseNo++
 	}
 	r.Extra("small_cases_exhaustive_over_chunkings", true)
@@ -1024,41 +1269,238 @@ func TestC20(t *testing.T) {
 		if rg.Chance(1, 4) {
 			lo, hi = pickRange(rg, all, every)
 		}
-		runCase("large_random_chunkings", rg, typ, agg, every, offset, all, lo, hi, func(n int, f func([]int, *vkit.Rand)) {
-			if n == 0 {
-				f(nil, rg)
-				return
-			}
-			mk := func(next func() int) []int {
-				var s []int
-				for left := n; left > 0; {
-					k := next()
-					if k < 1 {
-						k = 1
-					}
-					if k > left {
-						k = left
-					}
-					s = append(s, k)
-					left -= k
-				}
-				return s
-			}
-			f([]int{n}, rg)                                              // one array
-			f(mk(func() int { return 1000 }), rg)                        // TSM block sized
-			f(mk(func() int { return rg.Range(1, 50) }), rg)             // small arrays
-			f(mk(func() int { return 1 }), rg)                           // one point per array
-			f(mk(func() int { return rg.Range(1, n) }), rg)              // anything
-			f(mk(func() int { return vkit.Pick(rg, []int{1, 2, 500, 998, 999, 1000, 1001, 1002}) }), rg) // around the block size
-			f(mk(func() int { return rg.Range(900, 1100) }), rg)
-		})
+		runCase("large_random_chunkings", rg, typ, agg, c20W{Every: every, Offset: offset}, all, lo, hi, largeChunkings(rg))
 		caseNo++
 	}
 
 	tLarge := time.Since(t0) - tSmall
 	// ---- stream 3: the same property through the real store -------------------------------------
 	c20StoreStream(t, r, nStore)
-	t.Logf("C20 stream wall times: all_chunkings %.1fs, large %.1fs, real_store %.1fs", tSmall.Seconds(), tLarge.Seconds(), (time.Since(t0) - tSmall - tLarge).Seconds())
+	tStore := time.Since(t0) - tSmall - tLarge
+
+	// ---- streams 4–6: calendar-month windows (every = M months, period = every) -------------------
+	if msg := c20CalendarSelfTest(r.SubRand("calendar-selftest", 0)); msg != "" {
+		r.Inconclusive("the oracle's calendar arithmetic disagrees with package time: " + msg)
+		return
+	}
+	r.Event("calendar_selftest_months_checked", c20MaxMonth-c20MinMonth+1)
+	// stream 4: every chunking of ≤ 12 points in month windows
+	for i := 0; i < nMonthSmall; i++ {
+		rg := r.SubRand("month-small", i)
+		typ := types[i%5]
+		agg := c20Aggs(typ)[(i/5)%len(c20Aggs(typ))]
+		w := c20MonthWindow(rg)
+		var n int
+		switch k := rg.Intn(100); {
+		case k < 4:
+			n = rg.Range(12, 14)
+		case k < 16:
+			n = rg.Range(9, 11)
+		default:
+			n = rg.Range(0, 8)
+		}
+		vmode := rg.Intn(2)
+		if (agg != c20Sum && agg != c20Mean) && rg.Chance(1, 4) {
+			vmode = 2
+		}
+		all := c20GenMonthPoints(rg, typ, vmode, n, rg.Range(1, maxI(n, 1)), w)
+		lo, hi := pickRange(rg, all, w.approxEvery())
+		if len(all) > 0 && rg.Chance(1, 4) {
+			// range edges on / next to window and month boundaries
+			ws, _ := w.win(all[rg.Intn(len(all))].T)
+			_, we := w.win(all[rg.Intn(len(all))].T)
+			if ws < we {
+				lo, hi = ws+int64(rg.Intn(3))-1, we+int64(rg.Intn(3))-1
+			}
+		}
+		for {
+			cnt := 0
+			for _, p := range all {
+				if p.T >= lo && p.T < hi {
+					cnt++
+				}
+			}
+			if cnt <= 12 {
+				break
+			}
+			all = all[:len(all)-1]
+		}
+		caseNo = i
+		runCase("month_all_chunkings", rg, typ, agg, w, all, lo, hi, allChunkings(rg.Uint64()))
+	}
+	// stream 5: 900–2100 points in month windows, output crossing MaxPointsPerBlock
+	for i := 0; i < nMonthLarge; i++ {
+		rg := r.SubRand("month-large", i)
+		typ := types[i%5]
+		agg := c20Aggs(typ)[(i/5)%len(c20Aggs(typ))]
+		w := c20MonthWindow(rg)
+		n := rg.Range(900, 2100)
+		nw := vkit.Pick(rg, []int{999, 1000, 1001, 2000, 2001, n, n * 2 / 3, rg.Range(300, n)})
+		// 1700–2250 holds 6600 months: keep the windows inside
+		for int64(nw)*w.Months > 6000 {
+			if w.Months > 1 {
+				w.Months = map[int64]int64{12: 6, 6: 3, 3: 2, 2: 1}[w.Months]
+				if w.OffMonths > w.Months+1 {
+					w.OffMonths = w.Months + 1
+				}
+			} else {
+				nw = 6000
+			}
+		}
+		if nw > n {
+			n = nw + rg.Intn(100)
+		}
+		vmode := rg.Intn(2)
+		if (agg != c20Sum && agg != c20Mean) && rg.Chance(1, 5) {
+			vmode = 2
+		}
+		all := c20GenMonthPoints(rg, typ, vmode, n, nw, w)
+		lo, hi := all[0].T-1, all[len(all)-1].T+1
+		if rg.Chance(1, 4) {
+			lo, hi = pickRange(rg, all, w.approxEvery())
+		}
+		caseNo = i
+		runCase("month_large_random_chunkings", rg, typ, agg, w, all, lo, hi, largeChunkings(rg))
+	}
+	tMonthMock := time.Since(t0) - tSmall - tLarge - tStore
+	// stream 6: month windows through the real store
+	c20MonthStoreStream(t, r, nMonthStore)
+	r.Extra("stream_wall_s", map[string]int{"all_chunkings": int(tSmall.Seconds()), "large": int(tLarge.Seconds()), "real_store": int(tStore.Seconds()),
+		"month_mock_streams": int(tMonthMock.Seconds()), "month_real_store": int((time.Since(t0) - tSmall - tLarge - tStore - tMonthMock).Seconds())}) // reporting only
+}
+
+// ---- month-window generators -------------------------------------------------------------------
+
+var c20MonthEverys = []int64{1, 2, 3, 6, 12}
+
+// c20MonthOffsets draws an offset for windows of M months: none, whole months (below, equal to
+// and above every), nanoseconds below 28 days, or both.
+func c20MonthOffsets(rg *vkit.Rand, M int64) (months, nsecs int64) {
+	ns := []int64{1, int64(time.Hour), 5*c20Day + 3*int64(time.Hour), 27*c20Day + 86399_999_999_999}
+	switch rg.Intn(12) {
+	case 0, 1, 2, 3:
+		return 0, 0
+	case 4:
+		return 1, 0
+	case 5:
+		return M - 1, 0
+	case 6:
+		return M, 0
+	case 7:
+		return M + 1, 0
+	case 8:
+		return 13, 0
+	case 9:
+		return 0, 1
+	case 10:
+		return 0, vkit.Pick(rg, ns)
+	default:
+		return vkit.Pick(rg, []int64{1, M + 1}), vkit.Pick(rg, ns)
+	}
+}
+
+func c20MonthWindow(rg *vkit.Rand) c20W {
+	w := c20W{Months: vkit.Pick(rg, c20MonthEverys)}
+	w.OffMonths, w.Offset = c20MonthOffsets(rg, w.Months)
+	return w
+}
+
+// c20GenMonthPoints builds n ascending points in nw non-empty month windows (gaps of empty
+// windows in between while the calendar range has room); in-window positions are biased to the
+// first and last nanosecond of the window and to the month boundaries inside it.
+func c20GenMonthPoints(rg *vkit.Rand, typ byte, vmode int, n, nw int, w c20W) []sk.Pt {
+	if n == 0 {
+		return nil
+	}
+	if nw > n {
+		nw = n
+	}
+	if nw < 1 {
+		nw = 1
+	}
+	per := make([]int, nw)
+	for i := range per {
+		per[i] = 1
+	}
+	for left := n - nw; left > 0; left-- {
+		per[rg.Intn(nw)]++
+	}
+	// window index range that keeps every window inside 1700–2250
+	iMin := c20FloorDiv(c20MinMonth-w.OffMonths, w.Months) + 1
+	iMax := c20FloorDiv(c20MaxMonth-w.OffMonths, w.Months) - 2
+	idxOf := func(year, month int64) int64 { return c20FloorDiv((year-1970)*12+month-1-w.OffMonths, w.Months) }
+	var k int64
+	switch rg.Intn(9) {
+	case 0:
+		k = 0
+	case 1:
+		k = -1
+	case 2:
+		k = -int64(nw) / 2 // data straddles the epoch
+	case 3:
+		k = idxOf(2019, 11) // leap February 2020
+	case 4:
+		k = idxOf(1899, 12) - int64(rg.Intn(3)) // 1900 is not a leap year
+	case 5:
+		k = idxOf(1999, 12) - int64(rg.Intn(3)) // 2000 is
+	case 6:
+		k = idxOf(2099, 11) // 2100 is not
+	case 7:
+		k = idxOf(1967, 12) - int64(rg.Intn(14)) // before the epoch, leap February 1968
+	default:
+		k = iMin + int64(rg.Uint64()%uint64(iMax-iMin+1))
+	}
+	if k+int64(nw) > iMax {
+		k = iMax - int64(nw)
+	}
+	if k < iMin {
+		k = iMin
+	}
+	room := iMax - (k + int64(nw)) // empty windows that may still be inserted
+	gapP := rg.Intn(4)
+	var pts []sk.Pt
+	for wi := 0; wi < nw; wi++ {
+		if wi > 0 {
+			k++
+			if gapP > 0 && room > 0 && rg.Chance(1, gapP+1) {
+				g := int64(1 + rg.Intn(3))
+				if g > room {
+					g = room
+				}
+				k += g
+				room -= g
+			}
+		}
+		start, stop := w.monthWinStart(k), w.monthWinStart(k+1)
+		offs := map[int64]bool{}
+		for len(offs) < per[wi] {
+			var o int64
+			switch rg.Intn(7) {
+			case 0:
+				o = 0
+			case 1:
+				o = stop - start - 1
+			case 2, 3: // a calendar month boundary inside the window, or the nanosecond before / after it
+				b := c20MonthStart(c20MonthIdx(start)+1+int64(rg.Intn(int(w.Months)))) + int64(rg.Intn(3)) - 1
+				if b < start || b >= stop {
+					b = start
+				}
+				o = b - start
+			default:
+				o = int64(rg.Uint64() % uint64(stop-start))
+			}
+			offs[o] = true
+		}
+		os := make([]int64, 0, len(offs))
+		for o := range offs {
+			os = append(os, o)
+		}
+		sort.Slice(os, func(i, j int) bool { return os[i] < os[j] })
+		for _, o := range os {
+			pts = append(pts, sk.Pt{T: start + o, V: c20Value(rg, typ, vmode, len(pts))})
+		}
+	}
+	return pts
 }
 
 func maxI(a, b int) int {
@@ -1134,7 +1576,8 @@ func c20StoreStream(t *testing.T, r *vkit.Run, n int) {
 					if len(want) > reads.MaxPointsPerBlock {
 						ob = "crosses_1000_rows"
 					}
-					r.Violation("window_aggregate_mismatch", map[string]string{"agg": c20AggNames[agg], "type": c20TypeName(typ), "diff": kind, "output": ob, "path": "real_store"},
+					r.Event("violations_path_real_store", 1)
+					r.Violation("window_aggregate_mismatch", map[string]string{"agg": c20AggNames[agg], "type": c20TypeName(typ), "diff": kind, "output": ob, "path": "real_store", "window_unit": "nsecs"},
 						c20Wit{Case: c20Case{No: done, Type: c20TypeName(typ), Agg: c20AggNames[agg], Every: every, Offset: offset, RangeLo: lo, RangeHi: hi, Points: c20FmtPts(pts.pts, 30), NPoints: len(pts.pts), NInRange: len(pts.pts), NWindows: len(want)},
 							Path: "real_store series " + key + " dataset " + ds.describe(), DiffKind: kind, Row: idx, Detail: detail,
 							Want: c20Near(want, idx, func(w c20Row) string { return fmt.Sprintf("[%d,%d) %d:%s n=%d", w.Start, w.Stop, w.T, w.V, w.N) }),
@@ -1146,6 +1589,110 @@ func c20StoreStream(t *testing.T, r *vkit.Run, n int) {
 				r.Event("store_unsupported_aggregate_errors", 1)
 			}
 			r.Case(fmt.Sprint("store", envNo, agg, every, offset, lo, hi), nonTrivial)
+			done++
+		}
+		env.Close()
+	}
+}
+
+// c20MonthStoreStream: calendar-month windows (req.Window.Every.Months) sent to
+// v1/services/storage.Store.WindowAggregate over a real engine holding 5–30 months of data in
+// several shards per series; every series' rows are compared with the fold of what
+// Store.ReadFilter returns for the same range.
+func c20MonthStoreStream(t *testing.T, r *vkit.Run, n int) {
+	per := r.N(60, 120)
+	for done, envNo := 0, 0; done < n; envNo++ {
+		rg := r.SubRand("month-store-env", envNo)
+		ds := c41GenMonthDataset(rg, envNo)
+		env, err := c41OpenEnvSGD(t.TempDir(), ds.sgd)
+		if err != nil {
+			r.Inconclusive("real store could not be opened: " + err.Error())
+			return
+		}
+		if err := ds.load(env, rg); err != nil {
+			env.Close()
+			r.Inconclusive("real store write failed: " + err.Error())
+			return
+		}
+		ds.shards = env.shardCount()
+		r.Event("month_store_datasets", 1)
+		r.Event("month_store_dataset_shards", int64(ds.shards))
+		for q := 0; q < per && done < n; q++ {
+			qg := r.SubRand("month-store-req", done)
+			w := c20MonthWindow(qg)
+			agg := done % 7
+			lo, hi := ds.monthBounds(qg)
+			pred := c41PredFor(agg)
+			raw, err := env.rawSeries(lo, hi, pred)
+			if err != nil {
+				r.Inconclusive("ReadFilter failed: " + err.Error())
+				done++
+				continue
+			}
+			req := c20RequestW(agg, w, lo, hi, true)
+			req.Predicate = pred
+			got, err := env.windowAggregate(req)
+			nonTrivial := false
+			keys := make([]string, 0, len(raw))
+			for key := range raw {
+				keys = append(keys, key)
+			}
+			sort.Strings(keys)
+			for _, key := range keys {
+				pts := raw[key]
+				typ := pts.typ
+				applicable := false
+				for _, a := range c20Aggs(typ) {
+					if a == agg {
+						applicable = true
+					}
+				}
+				if !applicable {
+					continue
+				}
+				want := c20ExpectW(pts.pts, agg, w)
+				if len(want) >= 2 {
+					nonTrivial = true
+				}
+				g, ok := got[key]
+				r.Event("store_series_compared", 1)
+				r.Event("month_store_series_compared", 1)
+				r.Event("rows_compared", int64(len(want)))
+				r.Event("month_store_rows_compared", int64(len(want)))
+				kind, idx, detail := "", 0, ""
+				if err != nil {
+					kind, detail = "error", err.Error()
+				} else if !ok && len(want) > 0 {
+					kind, detail = "missing_series", "series has rows in the filter read but no cursor in the window aggregate result"
+				} else {
+					kind, idx, detail = c20Diff(want, g)
+				}
+				if kind != "" {
+					r.Event("violations_path_month_real_store", 1)
+				r.Violation("window_aggregate_mismatch", map[string]string{"agg": c20AggNames[agg], "type": c20TypeName(typ), "diff": kind, "output": "single_block", "path": "month_real_store", "window_unit": "months"},
+						c20Wit{Case: c20Case{No: done, Type: c20TypeName(typ), Agg: c20AggNames[agg], EveryMo: w.Months, OffsetMo: w.OffMonths, Offset: w.Offset, RangeLo: lo, RangeHi: hi, WindowMsg: true, Points: c20FmtPts(pts.pts, 30), NPoints: len(pts.pts), NInRange: len(pts.pts), NWindows: len(want)},
+							Path: "month_real_store series " + key + " dataset " + ds.describe(), DiffKind: kind, Row: idx, Detail: detail,
+							Want: c20Near(want, idx, func(w c20Row) string { return fmt.Sprintf("[%d,%d) %d:%s n=%d", w.Start, w.Stop, w.T, w.V, w.N) }),
+							Got:  c20Near(g, idx, func(p sk.Pt) string { return fmt.Sprintf("%d:%s", p.T, p.V) })})
+					break
+				}
+			}
+			r.Event("month_window_cases", 1)
+			r.Event(fmt.Sprintf("month_window_cases_every_%dmo", w.Months), 1)
+			r.Case(fmt.Sprint("month-store", envNo, agg, w, lo, hi), nonTrivial)
+			if r.WantSample() && nonTrivial && done%37 == 11 && len(keys) > 0 {
+				want := c20ExpectW(raw[keys[0]].pts, agg, w)
+				var ws []string
+				for i, x := range want {
+					if i >= 4 {
+						ws = append(ws, "…")
+						break
+					}
+					ws = append(ws, fmt.Sprintf("[%d,%d) -> %d:%s n=%d", x.Start, x.Stop, x.T, x.V, x.N))
+				}
+				r.Sample(map[string]any{"path": "month_real_store", "dataset": ds.describe(), "agg": c20AggNames[agg], "every_months": w.Months, "offset_months": w.OffMonths, "offset_nsecs": w.Offset,
+					"range_start": lo, "range_end_excl": hi, "first_series": keys[0], "first_series_expected_rows_head": ws})
+			}
 			done++
 		}
 		env.Close()
